@@ -132,7 +132,7 @@ func runC21(c *core.Ctx) {
 				return false
 			}
 			// the recovered message must be the keccak of rlp([sender]) with sender = tx.Sender()
-			return lockHashBindsSender(m, cf)
+			return lockHashBindsSender(m, f, cf)
 		}},
 	}
 	var effects []*MutSite
@@ -282,7 +282,7 @@ func posOrZero(s *core.Site) token.Pos {
 
 // lockHashBindsSender: the message passed to Ecrecover is the buffer filled by hw.Sum(...) where hw
 // received rlp.Encode(hw, [sender]) with sender = tx.Sender().
-func lockHashBindsSender(m *RunModel, cf core.CallFact) bool {
+func lockHashBindsSender(m *RunModel, f core.Fact, cf core.CallFact) bool {
 	// find the Ecrecover call among the bytes.Equal args
 	var ecr *ssa.Call
 	for _, a := range cf.Call.Call.Args {
@@ -318,7 +318,13 @@ func lockHashBindsSender(m *RunModel, cf core.CallFact) bool {
 			continue
 		}
 		// the encoded value's dependence closure must contain tx.Sender() and nothing else from data
-		dep := core.DependsOn(s.Arg(1), func(v ssa.Value) bool { return m.isTxSender(v) })
+		// (inside a helper: the parameter the caller passes tx.Sender() for)
+		dep := core.DependsOn(s.Arg(1), func(v ssa.Value) bool {
+			if cv := f.CallerValue(v); cv != nil && m.isTxSender(cv) {
+				return true
+			}
+			return m.isTxSender(v)
+		})
 		return dep
 	}
 	return false
